@@ -169,6 +169,9 @@ def histories(ctx, n_hist):
     return mism
 
 
+ARITH = []
+
+
 def oracle_clusters(ctx, n_runs, directed=False):
     """the property on clusters returned by the real get_clusters; `directed`: only inputs whose clusters come out of a merge,
     with non-covalent radii and a periodic gap that is bonded with those radii only (used when the proof/correspondence is broken)"""
@@ -177,6 +180,7 @@ def oracle_clusters(ctx, n_runs, directed=False):
     import crystals
     rng = np.random.default_rng(ctx.seed + 1313)
     bad = []
+    arith_bad = []
     dropped = merged = 0
     for k in range(n_runs):
         a, kind = sbc_family(rng, (7 if k % 4 else 6) if directed else k, thin_gap=directed)
@@ -191,6 +195,18 @@ def oracle_clusters(ctx, n_runs, directed=False):
             if np.isnan(G.get_radii(preset, a.get_atomic_numbers())).any():
                 radii_arg = "covalent"
         radii_full = G.get_radii(radii_arg, a.get_atomic_numbers())
+        # the shared matrix is, bit for bit, the minimum-image distance minus the SUM of the two radii — the arithmetic get_dimensionality
+        # repeats on the cluster's own atoms (a re-ordered or lower-precision subtraction moves bonds that sit exactly on the threshold)
+        try:
+            aw_ = a.copy()
+            aw_.wrap()
+            D_ = G.get_distances(aw_, radii_full)
+            rf_ = np.asarray(radii_full, dtype=float)
+            ctx.count("shared_matrix_arithmetic_checked")
+            if D_.dist_matrix_radii_mic.dtype != np.float64 or not np.array_equal(D_.dist_matrix_radii_mic, D_.dist_matrix_mic - (rf_[:, None] + rf_[None, :])):
+                arith_bad.append({"kind": kind, "atoms": len(a)})
+        except Exception:  # noqa
+            pass
         try:
             extra = {"merge_threshold": float(rng.uniform(0.1, 0.5))} if kind.startswith("substituted") else {}
             clusters = SBC().get_clusters(a, radii=radii_arg, bond_threshold=thr, seed=int(rng.integers(0, 100)), **extra)
@@ -220,6 +236,8 @@ def oracle_clusters(ctx, n_runs, directed=False):
                             "indices": [int(i) for i in c.indices], "extra": extra, "merged": bool(getattr(c, "_merged", False))})
     ctx.coverage["clusters_that_lost_atoms_after_tracking"] = dropped
     ctx.coverage["clusters_produced_by_a_merge"] = merged
+    if arith_bad:
+        ARITH.extend(arith_bad)
     return bad
 
 
@@ -245,6 +263,9 @@ def run(ctx):
     if mism:
         broken.append(("correspondence", {"count": len(mism), "mismatches": mism[:5]}))
     bad = oracle_clusters(ctx, ctx.n(64, 1600))
+    if ARITH:
+        broken.append(("correspondence", {"what": "Distances.dist_matrix_radii_mic is not, bit for bit, dist_matrix_mic - (r_i + r_j) in double precision "
+                                          "(the arithmetic get_dimensionality repeats on the cluster's atoms)", "count": len(ARITH), "examples": ARITH[:3]}))
     if broken and not bad:
         bad = oracle_clusters(ctx, ctx.n(90, 900), directed=True)
     seen = set()
